@@ -289,6 +289,7 @@ fn check_doc(rep: &Reporter, pool: &[Game], d: &Doc, dev_bound: usize, max_chunk
     let (text, annots) = render(&games, d.comments, d.ending);
     let exp = expected(&games, &annots);
     let bytes = text.as_bytes();
+    rep.sample(|| json!({"document": text, "chunk_sizes": format!("1..={}", bytes.len() + 1), "fragmentation_deviation_bound": dev_bound}));
     let case = |chunk: usize, dev: &[(usize, usize)], extra: Value| json!({"kind": "pgn", "document": text, "games": d.idx, "comments": d.comments, "ending": d.ending, "chunk_size": chunk, "fragmentation": dev, "detail": extra});
     let mut first_outcome: Option<Vec<Result<Yielded, String>>> = None;
     let mut local_runs = 0u64;
